@@ -168,7 +168,8 @@ def cf1d_geom(draw, max_n=6, bounds_kinds=("none", "none", "contig", "gaps"), mi
         "names": names,
         "coords_as": draw(st.sampled_from(["coord", "var"])),
         "bounds_as": draw(st.sampled_from(["var", "var", "coord"])),
-        "detect": draw(st.sampled_from(["units", "standard_name", "axis", "units_alt"])),
+        "detect": draw(st.sampled_from(["units", "standard_name", "axis", "units_alt", "spelling", "spelling"])),
+        "lon_first": draw(st.booleans()),
     }
 
 
@@ -194,7 +195,8 @@ def cf2d_geom(draw, shoc_simple=False, max_n=5, holes=True, bounds=None, decoy=F
         "names": names,
         "coords_as": draw(st.sampled_from(["coord", "var"])),
         "bounds_as": draw(st.sampled_from(["var", "var", "coord"])),
-        "detect": draw(st.sampled_from(["units", "standard_name", "units_alt"])),
+        "detect": draw(st.sampled_from(["units", "standard_name", "units_alt", "spelling", "spelling"])),
+        "lon_first": draw(st.booleans()),
         "decoy_first": bool(decoy and draw(st.booleans())),
     }
 
@@ -224,7 +226,12 @@ def arakawa_geom(draw, max_n=5, holes=True):
         for a, b in specs.cell_corner_nodes(nj - 1, ni - 1):
             nodes[a][b] = full[a][b]
     return {"nodes": nodes, "coords_as": draw(st.sampled_from(["coord", "var"])),
-            "node_style": style}
+            "node_style": style,
+            # the cell-centre longitude stored with its two dimensions the other way round (CF
+            # leaves the dimension order of each variable free; emsarray reads the centres
+            # through ravel, which accepts that.  The node / edge coordinates are read as plain
+            # (j, i) arrays by the polygon builder, so the option stops at the centres.)
+            "lon_transposed": ["face"] if draw(st.integers(0, 7)) == 0 else []}
 
 
 # ---- meshes
@@ -561,6 +568,14 @@ WARMUP_PROPERTIES = ["polygons", "mask", "strtree", "spatial_index", "face_centr
 
 @st.composite
 def geometry(draw, conv, **kw):
+    g = draw(_geometry(conv, **kw))
+    if g.get("detect") == "spelling":
+        g["detect"] = f"spelling:{draw(st.integers(0, 5))}:{draw(st.integers(0, 5))}"
+    return g
+
+
+@st.composite
+def _geometry(draw, conv, **kw):
     if conv == "cf1d":
         return draw(cf1d_geom(**{k: v for k, v in kw.items() if k in ("max_n", "bounds_kinds", "min_n")}))
     if conv == "cf2d":
@@ -637,6 +652,10 @@ def dataset_spec(draw, convs=ALL_CONVS, max_vars=3, min_vars=1, max_extra=2,
                                   **(var_kwargs or {}))) if with_vars else []
     if conv != "cf1d" and draw(st.integers(0, 3)) == 0:
         spec["coord_dtype"] = "f4"
+    if conv != "cf1d" and draw(st.integers(0, 3)) == 0:
+        spec["coord_layout"] = "F"
+    if with_vars and draw(st.integers(0, 3)) == 0:
+        spec["data_layout"] = "F"
     if conv == "arakawa":
         spec["coord_names_order"] = list(draw(st.permutations(["face", "left", "back", "node"])))
     if dim_coords and draw(st.integers(0, 3)) == 0:
